@@ -222,6 +222,21 @@ fn run_inner(c: &[u64]) -> Vec<i128> {
             Descriptor::SystemSegment(lo, hi) => vec![lo as i128, hi as i128],
             _ => vec![-77],
         },
+        [14, iomap, fill] => {
+            // the safe constructor on a TSS with arbitrary contents: the descriptor is a function of the
+            // TSS's ADDRESS only; reported as the difference to tss_segment_unchecked of that address
+            static mut TSS: TaskStateSegment = TaskStateSegment::new();
+            unsafe {
+                let t = &mut *core::ptr::addr_of_mut!(TSS);
+                t.iomap_base = *iomap as u16;
+                let _ = fill;
+                let tref: &'static TaskStateSegment = &*core::ptr::addr_of!(TSS);
+                match (Descriptor::tss_segment(tref), Descriptor::tss_segment_unchecked(tref as *const TaskStateSegment)) {
+                    (Descriptor::SystemSegment(lo, hi), Descriptor::SystemSegment(lo2, hi2)) => vec![(lo ^ lo2) as i128, (hi ^ hi2) as i128],
+                    _ => vec![-77],
+                }
+            }
+        }
         [11] => {
             let raw = |d: Descriptor| match d {
                 Descriptor::UserSegment(v) => v as i128,
@@ -345,6 +360,16 @@ fn run_inner(c: &[u64]) -> Vec<i128> {
             unsafe {
                 idt.breakpoint.set_handler_addr(VirtAddr::new(MARK_ADDR));
                 idt[255].set_handler_addr(VirtAddr::new(MARK_ADDR));
+                // ... and then every one of the 256 gates (named fields, reserved ones and the array alike),
+                // through the raw bytes: reset must bring all of them back
+                let mut e: Entry<HandlerFunc> = Entry::missing();
+                e.set_handler_addr(VirtAddr::new(MARK_ADDR));
+                let (plo, phi) = words(&e);
+                let p = &mut *idt as *mut InterruptDescriptorTable as *mut u64;
+                for i in 0..256usize {
+                    p.add(2 * i).write(plo);
+                    p.add(2 * i + 1).write(phi);
+                }
             }
             idt.reset();
             let n1 = count(&idt);
